@@ -875,3 +875,31 @@ def hex_all_blocks(stride=1, phase=0):
         out.append(hexstr(("1234" + "0000" + "0000" + "4142" + "%02X" % e).encode()))
         out.append(hexstr(("1234" + "0000" + "0000" + "4142" + "%02x" % e).encode()))
     return out
+
+# ---- nested calls: callbacks that call the API from inside (model: RdsModel/Reentrant.lean) ----
+def reentrant(ops, seed, period=12):
+    """insert `ri m` lines into a stream: single calls and stretches during which callback j resets the parser (5000+j),
+    registers callback k (3000+100j+4k), or unregisters k / changes the user data (1000+100j+4k+bits) from INSIDE the call.
+    Only the modes the nested-call model covers are used. Two thirds are one-shots (the mode is on for exactly one call, so
+    that what the nested call left behind meets ordinary traffic straight afterwards), the rest stretches of 2..30 calls."""
+    r = random.Random(seed * 7919 + 13)
+    out = []
+    left = 0
+    def pick():
+        x = r.random()
+        j = r.choice([0, 1, 1, 1, 2, 2, 3, 4, 5, 6, 7, 8, 8, 9, 9, 9, 10, 11])
+        k = r.randrange(12)
+        if x < 0.7: return 5000 + j
+        if x < 0.85: return 3000 + 100 * j + 4 * k
+        return 1000 + 100 * j + 4 * k + r.randrange(1, 4)
+    for l in ops:
+        isp = l.startswith("p ") or l.startswith("s ")
+        if isp and left == 0 and r.randrange(period) == 0:
+            out.append("ri %d" % pick())
+            left = 1 if r.random() < 0.67 else r.randrange(2, 31)
+        out.append(l)
+        if isp and left > 0:
+            left -= 1
+            if left == 0: out.append("ri 0")
+    out.append("ri 0")
+    return out
